@@ -16,7 +16,8 @@ RULE = ("alphabet of 13 commands (define, assign, read, define+call a function r
         "a broken-at-runtime, a broken-syntax and a circular module, loop aborted by an error after updating an "
         "accumulator); all histories of length <= 3 (quick) / <= 4 (thorough) on one interpreter, all histories <= 2 / "
         "<= 3 over two interleaved interpreters (26 symbols), all histories <= 2 with one caller-supplied environment passed "
-        "to every call, random histories to length 30; each followed by a fixed "
+        "to every call, random histories to length 30, random histories fed line by line (some commands broken over two "
+        "lines) to the interactive host ckl.repl in a child process; each followed by a fixed "
         "probe sequence; a case is one history; non-trivial = it contains a failing command followed by another command; "
         "distinct by history")
 ASSUMPTIONS = [
@@ -55,7 +56,11 @@ ERR = ("error", "'ERROR'")
 
 class Model:
     """reference session"""
-    def __init__(self, variant=0):
+    def __init__(self, variant=0, nested=True):
+        # nested=False: the CLI hosts define the module search path in the session scope, which module code does
+        # not see, so a user module cannot require a sibling user module there (the REPL modules do not try,
+        # except the circular pair, whose second member is then simply not found)
+        self.nested = nested
         self.step = 10 if variant == 1 else 1
         self.factor = 3 if variant == 1 else 2
         self.b = {}          # bindings: name -> value (ints) ; 'f' -> True
@@ -64,7 +69,7 @@ class Model:
         self.loadlog = []
 
     def load_helper(self):
-        if not self.helper:
+        if not self.helper and self.nested:
             self.helper = True
             self.loadlog.append("helper")
 
@@ -112,7 +117,8 @@ class Model:
             return ("syntax",)
         if name == "req-cyclic":
             self.loadlog.append("cyc_a")
-            self.loadlog.append("cyc_b")
+            if self.nested:
+                self.loadlog.append("cyc_b")
             return ERR
         if name == "loop-abort":
             b["acc"] = 3
@@ -213,6 +219,112 @@ def run_history(ctx, moddir, hist, two=False, caller_env=False):
                 return
 
 
+def continuation_split(r, src):
+    """a place to break the command over two REPL lines: the first part alone must end in 'Unexpected end of input'"""
+    import ckl.parser
+    from ckl.errors import CklSyntaxError
+    words = src.split(" ")
+    cands = []
+    for k in range(1, len(words)):
+        prefix = " ".join(words[:k]) + " "
+        try:
+            ckl.parser.parse_script(prefix, "{stdin}")
+        except CklSyntaxError as e:
+            if e.msg.startswith("Unexpected end of input"):
+                cands.append((prefix, " ".join(words[k:])))
+        except Exception:
+            pass
+    return r.choice(cands) if cands else None
+
+
+def classify_repl(lines):
+    import re
+    if not lines:
+        return ("value", "NULL")
+    first = lines[0]
+    if re.fullmatch(r"-?\d+", first) and len(lines) == 1:
+        return ("value", first)
+    m = re.match(r"^([A-Za-z]+): ", first)
+    if m and "(Line" in first:
+        return ("error", "'%s'" % m.group(1))
+    if "(Line" in first or "Unexpected" in first or "Expected" in first:
+        return ("syntax",)
+    return ("other", first[:80])
+
+
+def run_repl_history(ctx, moddir, hist, r):
+    """the same histories through the interactive host (ckl.repl) in a child process: one command per line, some
+    broken over two lines at a point where the first part is an incomplete program"""
+    import subprocess
+    import sys
+    model = Model(nested=False)
+    lines = []
+    expected = []
+    probes = [p for p in PROBES if "LOADLOG" not in p]
+    k = 0
+    for ci in hist:
+        name, src = COMMANDS[ci]
+        before = len(model.loadlog)
+        want = model.run(name)
+        loads = ["LOAD " + m for m in model.loadlog[before:]]
+        sp = continuation_split(r, src) if r.random() < 0.35 else None
+        if sp:
+            lines += [sp[0], sp[1]]
+            ctx.count("repl_continuations")
+        else:
+            lines.append(src)
+        lines.append("println('@@%d')" % k)
+        expected.append((name, src, loads, want))
+        k += 1
+    for p in probes:
+        lines.append(p)
+        lines.append("println('@@%d')" % k)
+        expected.append(("probe", p, [], model.probe(p)))
+        k += 1
+    lines.append("exit")
+    env = dict(os.environ)
+    env["PYTHONPATH"] = os.path.join(core.REPO, "src")
+    p = subprocess.run([sys.executable, "-B", "-m", "ckl.repl", "--secure", "-m", moddir], input="\n".join(lines) + "\n",
+                       capture_output=True, text=True, timeout=300, env=env)
+    ctx.count("repl_sessions")
+    ctx.case(("repl", tuple(hist), tuple(lines)), nontrivial=any(residue_kind(COMMANDS[c][0]) != "none" for c in hist[:-1]))
+    names = [COMMANDS[c][0] for c in hist]
+    if p.returncode != 0 or "Traceback" in p.stderr:
+        ctx.violation("C10:repl:host-died", "history %s: the REPL process ended with status %s: %s" % (names, p.returncode, p.stderr[-300:]),
+                      {"lines": lines})
+        return
+    # cut the output at the markers
+    segs = []
+    cur = []
+    for raw in p.stdout.split("\n"):
+        ln = raw
+        while ln.startswith("> ") or ln.startswith("+ "):
+            ln = ln[2:]
+        if ln.startswith("@@"):
+            segs.append(cur)
+            cur = []
+        elif ln.strip() != "":
+            cur.append(ln)
+    if len(segs) != len(expected):
+        ctx.violation("C10:repl:lost-lines", "history %s: %d marker lines came back for %d commands" % (names, len(segs), len(expected)),
+                      {"lines": lines, "stdout": p.stdout[-2000:]})
+        return
+    prev_fail = "none"
+    for seg, (name, src, loads, want) in zip(segs, expected):
+        ctx.count("repl_calls")
+        got_loads = [x for x in seg if x.startswith("LOAD ")]
+        rest = [x for x in seg if not x.startswith("LOAD ")]
+        got = classify_repl(rest)
+        want_c = want if want[0] != "value" else ("value", want[1])
+        if got_loads != loads or got != want_c:
+            ctx.violation("C10:repl:%s:after-%s" % (name if name != "probe" else "probe:" + src.split("(")[0].split("-")[0], prev_fail),
+                          "REPL history %s: `%s` printed %r; the session model says loads %r then %r" % (names, src, seg[:6], loads, want_c),
+                          {"lines": lines})
+            return
+        if name != "probe" and want[0] != "value":
+            prev_fail = residue_kind(name)
+
+
 def plan(tier, seed):
     specs = []
     n1 = 3 if tier == "quick" else 4
@@ -223,6 +335,8 @@ def plan(tier, seed):
         specs.append({"kind": "two", "maxlen": n2, "part": i, "of": parts})
     for i in range(4 if tier == "quick" else 16):
         specs.append({"kind": "random", "n": 40 if tier == "quick" else 400})
+    for i in range(2 if tier == "quick" else 16):
+        specs.append({"kind": "repl", "n": 12 if tier == "quick" else 60})
     return specs
 
 
@@ -260,6 +374,18 @@ def run_shard(spec, ctx):
                 done += 1
         ctx.extras["two_done"] = done
         ctx.extras["two_total"] = sum((2 * n) ** L for L in range(1, spec["maxlen"] + 1))
+    elif spec["kind"] == "repl":
+        r = ctx.rng
+        rdir = os.path.join(os.getcwd(), "mods_repl")
+        os.makedirs(rdir, exist_ok=True)
+        import re
+        for name, src in MODULES.items():
+            with open(os.path.join(rdir, name + ".ckl"), "w") as f:
+                src = src.replace("require helper;\n", "").replace("helper->twice(n)", "n * 2")
+                f.write(re.sub(r"append\(LOADLOG, '(\w+)'\)", r"println('LOAD \1')", src))
+        for i in range(spec["n"]):
+            L = r.randint(1, 4) if i % 3 == 0 else r.randint(5, 25)
+            run_repl_history(ctx, rdir, [r.randrange(n) for _ in range(L)], r)
     else:
         r = ctx.rng
         for _ in range(spec["n"]):
@@ -285,4 +411,6 @@ def finalize(merged, tier):
         reasons.append("history enumeration incomplete (%d/%d, %d/%d)" % (one_done, one_total, two_done, two_total))
     if c.get("probes", 0) == 0 or c.get("random_histories", 0) == 0:
         reasons.append("no probes / random histories")
+    if c.get("repl_calls", 0) == 0 or c.get("repl_continuations", 0) == 0:
+        reasons.append("no REPL sessions / continuation lines observed")
     return extra, reasons
